@@ -69,7 +69,7 @@ C01Part(d) ==
        IN \A ty \in {"f64", "f32"} : \A li \in Levs : \A ki \in 1..3 : EmitStyles("arith", ty, ki, li, dd)
   /\ \A s \in DOMAIN Shapes : \A ty \in {"f64", "f32"} : \A li \in Levs : \A ki \in 1..3 :
        EmitStyles("arith", ty, ki, li, Shapes[s])
-  /\ \A b \in DOMAIN BigNs : \A ty \in {"f64", "f32"} : \A li \in {8, 12, 17} : \A ki \in 1..3 :
+  /\ \A b \in DOMAIN BigNs : \A ty \in {"f64", "f32"} : \A li \in {2, 7, 8, 12, 17} : \A ki \in 1..3 :
        LET n == BigNs[b]
            data == [rle |-> << <<V(-3, -1), n \div 3>>, <<V(5, 0), n \div 3>>, <<V(64, 0), n - 2 * (n \div 3)>> >>,
                     order |-> "interleave"]
@@ -103,6 +103,12 @@ C04Part(d) ==
            xa == RandSeq(2 * i, n, Offsets[Pick(i, 23, 1, 4)], p)  xb == RandSeq(2 * i + 1, n, 100, p)
        IN \A li \in LevQuick : \A ki \in 1..3 : \A si \in DOMAIN PairedStyles :
              Emit(TwoCase("paired", ty, PairedStyles[si], ki, li, Seq1(xa), Seq1(xb), si = 1, IF si = 1 THEN "base" ELSE "style"))
+  \* constant differences: the sample of differences is constant, the interval degenerate - of the requested kind
+  /\ \A n \in {2, 3, 17} : \A ty \in {"f64", "f32"} : \A sh \in {0, -3, 40} :
+       LET xa == RandSeq(8000 + n, n, 0, 0)
+           xb == [i \in 1..n |-> V(xa[i].n - sh, 0)] IN
+       \A li \in LevQuick : \A ki \in 1..3 : \A si \in DOMAIN PairedStyles :
+          Emit(TwoCase("paired", ty, PairedStyles[si], ki, li, Seq1(xa), Seq1(xb), si = 1, IF si = 1 THEN "base" ELSE "style"))
   \* unequal lengths, both directions
   /\ \A la \in {0, 1, 3, 7}, lb \in {0, 2, 3, 9} : la # lb =>
        \A ty \in {"f64", "f32"}, si \in {1, 2} :
